@@ -390,3 +390,69 @@ func H_C04_map_values_with_groups() {
 	}
 	vRunNested("C04 map of struct values with groups", o, true)
 }
+
+// ---- round 4 ----
+
+// which sub-objects are marked is decided per call: a call that marks an untagged field (and unmarks a tagged
+// one) through a supplied rule set, then a plain call on the same type, then the supplied rules again; every
+// call is compared with the reference on its own arguments
+type vN20 struct {
+	A vD2 `valid:"exist"`
+	U vD2
+	P *vD2
+	L []vD3 `valid:"required"`
+}
+
+func vN20Val(name string) *vN20 {
+	o := &vN20{A: vD2{X: "x", D: vD3{N: "a"}}, U: vD2{X: "u", D: vD3{N: vStr(name + ".U.D.N")}}}
+	if vndBool(name + ".P") {
+		o.P = &vD2{X: "p", D: vD3{N: "n"}}
+	}
+	if vndBool(name + ".L") {
+		o.L = []vD3{{N: "l"}}
+	}
+	return o
+}
+
+func vC04MarksPerCall(calls []int) {
+	vUNoFail = true
+	known := vGlobalRules()
+	rm := NewRule().Set("U", "exist").Set("P", "required").Set("A", "r1").Set("L", "r2")
+	for i, withRules := range calls {
+		o := vN20Val("o" + vNum(i))
+		vULog = nil
+		var err error
+		r := vNewRef()
+		r.global = known
+		if withRules == 1 {
+			err = Struct(o, rm)
+			r.unscoped = rm
+		} else {
+			err = Struct(o)
+		}
+		r.top(o)
+		vCheckAgainstRef("C04 marks per call, call "+vNum(i), err, r)
+	}
+	vReach("end")
+}
+
+func H_C04_marks_per_call_rp()  { vC04MarksPerCall([]int{1, 0}) }
+func H_C04_marks_per_call_pr()  { vC04MarksPerCall([]int{0, 1}) }
+func H_C04_marks_per_call_rpr() { vC04MarksPerCall([]int{1, 0, 1}) }
+
+// the path of an element is the path of that element: nil elements before a populated one in a top-level
+// slice / array, several failing elements with groups of their own in a nested slice
+func H_C04_paths_after_nil_elements() {
+	v := vD2Val("e")
+	switch vndChoice("shape", 4) {
+	case 0:
+		vRunNested("C04 top []*T{nil, x}", []*vD2{nil, &v}, false)
+	case 1:
+		vRunNested("C04 top []*T{nil, nil, x}", []*vD2{nil, nil, &v}, false)
+	case 2:
+		vRunNested("C04 top [2]*T{nil, x}", [2]*vD2{nil, &v}, false)
+	case 3:
+		w := vD2Val("f")
+		vRunNested("C04 top []*T{x, nil, y}", []*vD2{&v, nil, &w}, false)
+	}
+}
